@@ -290,6 +290,37 @@ pub fn run(a: &Args) {
             }
         }
     }
+    // ---- reset after a stream that made the chunk buffer grow (a chunk larger than the initial 32 KiB): the next stream - again with large
+    // chunks - must be reported through exactly the (consumed, event) sequence a new decoder gives (PartialChunk events show the buffer size)
+    {
+        use crate::pngbuild::*;
+        let big = |n: usize, kind: &[u8; 4]| -> Vec<u8> {
+            let mut payload = b"Comment\0".to_vec();
+            payload.extend((0..n).map(|i| b'a' + (i % 23) as u8));
+            assemble(&[ihdr(1, 1, 8, 0, 0), Chunk::new(kind, payload), Chunk::new(b"IDAT", zlib_stored(&[0, 7], 64)), Chunk::new(b"IEND", vec![])])
+        };
+        let bigs: Vec<(String, Vec<u8>)> = vec![("text-100000".into(), big(100000, b"tEXt")), ("text-40000".into(), big(40000, b"tEXt")), ("private-70000".into(), big(70000, b"prVt")),
+            ("text-300".into(), big(300, b"tEXt"))];
+        for (na, sa) in &bigs {
+            for (nb, sb) in &bigs {
+                o.mark(&format!("reset-big {} then {}", na, nb));
+                let opts = Opts::default();
+                let mut d = StreamingDecoder::new_with_options(opts.to_png());
+                let _ = l0_trace(&mut d, sa);
+                d.reset();
+                let after = l0_trace(&mut d, sb);
+                let mut fresh = StreamingDecoder::new_with_options(opts.to_png());
+                let want = l0_trace(&mut fresh, sb);
+                o.direct_checks += 1;
+                o.count("reset-pairs-big-chunks");
+                if after != want {
+                    let cut = |t: &str| t.chars().take(600).collect::<String>();
+                    o.violation(viol("decoder-after-reset-differs-from-a-new-one", vec![("first", jstr(na)), ("second", jstr(nb)), ("opts", opts.bits().to_string()),
+                        ("after_reset", jstr(&cut(&after))), ("fresh", jstr(&cut(&want)))]));
+                }
+            }
+        }
+    }
     o.mark("done");
     o.finish();
 }
